@@ -86,7 +86,7 @@ macro_rules! arb_int { ($($t:ident [$($x:expr),*]);* $(;)?) => { $(
     impl Arb for $t {
         fn arb(r: &mut Rng, _d: usize) -> $t {
             const EXTRA: &[$t] = &[$t::MIN + 1, $t::MAX - 1, 9, 10, 99, 100, $t::MAX / 2, $t::MAX / 2 + 1, $t::MAX / 10, $t::MIN / 10 $(, $x)*];
-            match r.below(10) {
+            match r.below(12) {
                 0 | 1 => $t::MIN,
                 2 | 3 => $t::MAX,
                 4 => 0,
